@@ -378,6 +378,7 @@ example : framesObs (fun p => some p) 4 [[0,0,0,0,0,0,0,5, 1,2,3,4,5]] = ([.err 
 example : metaOk ⟨1700000000000000000, some 1500, [1, 2]⟩ = true := by decide
 
 
+
 /-! ### Translator tie (rs2lean): kernel-checked equivalence between the definitions that
 `extract/rs2lean.py` regenerates from the CURRENT Rust source on every run
 (`RactorModel/Generated/*.lean`) and the hand-written model functions the theorems above are
@@ -401,6 +402,12 @@ theorem generated_checked_frame_length_eq_model (len max : Nat) :
 theorem generated_frame_constants :
     FRAME_READ_CHUNK_SIZE = Codec.chunkSize ∧ DEFAULT_MAX_INBOUND_FRAME_SIZE = Codec.defaultMaxFrame := by
   decide
+
+/-- write side: `encode_network_message` appends the 8-byte big-endian length and the payload,
+i.e. `Codec.encodeFrame` (for a payload whose length fits `u64`, else the real code panics). -/
+theorem generated_encode_network_message_eq_model (msg buf : List UInt8) (h : msg.length < 2 ^ 64) :
+    encode_network_message msg buf = buf ++ Codec.encodeFrame msg := by
+  simp [encode_network_message, Codec.encodeFrame, Rust.unwrap, Rust.tryFrom, h, List.append_assoc]
 end XlateTie
 
 end C19
@@ -438,3 +445,4 @@ end C19
 -- rs2lean tie
 #print axioms C19.generated_checked_frame_length_eq_model
 #print axioms C19.generated_frame_constants
+#print axioms C19.generated_encode_network_message_eq_model
